@@ -8,6 +8,9 @@ interleaved with the read-only observers has_more_pages / one() / current_rows /
 stock row factories.  Oracle: the rows the caller saw are the concatenation of the pages; request i carries exactly
 the paging state returned with page i-1 (the first none) and the statement's fetch size; nothing is requested
 after a page without paging state; materialised list == iteration.
+
+A sampled fault family adds server errors on page fetches with a scripted retry policy (RETHROW caught and resumed by the
+application, IGNORE, RETRY, RETRY_NEXT_HOST): same oracle, the paging-state chain generalised to re-requested pages.
 """
 import itertools
 import random
@@ -206,6 +209,271 @@ def judge(seen, prob, sp, fetch_size):
     return out
 
 
+
+# ---------------------------------------------------------------------------------------------------------------
+# fault family: the first attempt of a page fetch is answered with a server error; the scripted retry policy decides
+FAULT_PATTERNS_RESUME = ['next-resume', 'manual-resume']                  # the application catches a rethrown error and resumes
+FAULT_PATTERNS_PLAIN = ['iterate', 'list', 'all', 'index', 'eq']          # only IGNORE / transparent retries
+FAULT_ERRORS = ['unavailable', 'read_timeout', 'write_timeout', 'overloaded', 'is_bootstrapping']
+ERR_INFO = {'unavailable': {'consistency': 1, 'required': 1, 'alive': 0},
+            'read_timeout': {'consistency': 1, 'received': 0, 'blockfor': 1, 'data_present': False},
+            'write_timeout': {'consistency': 1, 'received': 0, 'blockfor': 1, 'write_type': 'SIMPLE'}}
+
+
+class FaultyPageServer(PageServer):
+    """PageServer whose specs may carry ``faults`` = {page index: decision}: the first request for that page is answered with an
+    ERROR and the decision is queued for the retry policy; log entries get a third field 'error' / 'rows'."""
+    def behaviour(self, node, cstate, req):
+        from sim.scen import uid_of
+        if req['op'] != 'QUERY':
+            return None
+        uid = uid_of(req['query'])
+        sp = self.specs.get(uid)
+        if sp is None:
+            return None
+        ps = req.get('paging_state')
+        pages = sp['pages']
+        k = 0 if ps is None else sp['index'].get(bytes(ps))
+        entry = [None if ps is None else bytes(ps), req.get('page_size'), 'rows']
+        sp['log'].append(entry)
+        if len(sp['log']) > 2 * len(pages) + 4:
+            sp['flags'].append('runaway')
+            return node.rows(cstate, req, COLS, [], 'ks', 't')
+        if k is None:
+            sp['flags'].append('unknown-state')
+            return node.rows(cstate, req, COLS, [], 'ks', 't')
+        if k in sp['faults'] and k not in sp['faulted']:
+            sp['faulted'].add(k)
+            kind = sp['fault_kind'][k]
+            sp['decisions'].append(sp['faults'][k])
+            entry[2] = 'error'
+            return node.error(cstate, req, kind, 'scripted %s' % kind, **ERR_INFO.get(kind, {}))
+        md = {}
+        if k + 1 < len(pages):
+            md['paging_state'] = sp['states'][k]
+        return node.rows(cstate, req, COLS, [[rid_, 'p%d' % k] for rid_ in pages[k]], 'ks', 't', **md)
+
+
+def access_faulty(pattern, rs, sp, make_row):
+    """access patterns of the fault family; returns (ids seen, exceptions caught, problems)"""
+    pages = sp['pages']
+    flat = [r for p in pages for r in p]
+    seen, caught, prob = [], [], []
+    guard = 2 * len(pages) + 6
+    if pattern == 'next-resume':
+        it = iter(rs)                         # one iterator; after an exception the application simply asks for the next row again
+        while guard:
+            try:
+                r = next(it)
+            except StopIteration:
+                break
+            except Exception as e:            # noqa
+                caught.append(e)
+                guard -= 1
+                continue
+            seen.append(rid(r))
+    elif pattern == 'manual-resume':
+        seen.extend(rid(r) for r in rs.current_rows)
+        while rs.has_more_pages and guard:
+            guard -= 1
+            try:
+                rs.fetch_next_page()
+            except Exception as e:            # noqa
+                caught.append(e)
+                continue
+            seen.extend(rid(r) for r in rs.current_rows)
+    elif pattern == 'iterate':
+        for r in rs:
+            seen.append(rid(r))
+    elif pattern == 'list':
+        seen = [rid(r) for r in list(rs)]
+    elif pattern == 'all':
+        seen = [rid(r) for r in rs.all()]
+    elif pattern == 'index':
+        for i in range(len(flat)):
+            seen.append(rid(rs[i]))
+        try:
+            rs[len(flat)]
+            prob.append(('index-past-end-accepted', 'rs[%d] returned a row' % len(flat)))
+        except IndexError:
+            pass
+    elif pattern == 'eq':
+        want = [make_row(r, k) for k, p in enumerate(pages) for r in p]
+        if not (rs == want):
+            prob.append(('list-mode-differs-from-iteration', 'rs == [all rows] is False; rows materialised: %r' % ([rid(r) for r in rs.current_rows],)))
+        seen = [rid(r) for r in rs.current_rows]
+    else:
+        raise ValueError(pattern)
+    return seen, caught, prob
+
+
+def judge_faulty(seen, caught, prob, sp, fetch_size):
+    """same oracle as judge(), with the paging-state chain generalised to re-requested pages: every request carries the state that
+    came with the last page actually delivered; nothing is requested once the last page was delivered"""
+    pages, states = sp['pages'], sp['states']
+    flat = [r for p in pages for r in p]
+    out = list(prob)
+    log = sp['log']
+    if 'runaway' in sp['flags']:
+        out.append(('request-after-final-page', 'runaway: %d requests for %d pages' % (len(log), len(pages))))
+    if 'unknown-state' in sp['flags']:
+        out.append(('paging-state-not-the-one-returned', 'a request carried a paging state the node never issued: %r' % ([l[0] for l in log][:10],)))
+    served = 0
+    for i, (ps, size, what) in enumerate(log):
+        if served >= len(pages):
+            out.append(('request-after-final-page', 'request %d sent after the final page was delivered; states carried %r' % (i + 1, [l[0] for l in log][:12])))
+            break
+        want = None if served == 0 else bytes(states[served - 1])
+        if ps != want:
+            out.append(('paging-state-not-the-one-returned', 'request %d carried %r, the last delivered page (%d) came with %r' % (i + 1, ps, served - 1, want)))
+            break
+        if size != fetch_size:
+            out.append(('fetch-size-changed-between-pages', 'request %d asked for page size %r, the statement says %r' % (i + 1, size, fetch_size)))
+            break
+        if what == 'rows':
+            served += 1
+    rethrown = sum(1 for k, d in sp['faults'].items() if d == 'rethrow' and k in sp['faulted'])
+    if len(caught) != rethrown:
+        out.append(('error-surfaced-count-differs', '%d exceptions reached the application (%r), %d page fetches were answered with an error the policy rethrows' % (
+            len(caught), [type(e).__name__ for e in caught], rethrown)))
+    if seen != flat:
+        missing = [r for r in flat if r not in seen]
+        dup = sorted(set(r for r in seen if seen.count(r) > 1))
+        slug = 'rows-duplicated' if dup else ('rows-lost-after-error-on-page-fetch' if missing else 'rows-out-of-order')
+        out.append((slug, 'rows seen %r, pages %r, faults %r, requests %r' % (seen, pages, sp['faults'], [(l[2]) for l in log])))
+    elif served < len(pages):
+        out.append(('stopped-before-the-final-page', 'all rows seen although only %d of %d pages were delivered' % (served, len(pages))))
+    return out
+
+
+def run_fault_family(ctx, budget):
+    """seeded sample: page-size sequences x access patterns x per-page fault decisions (RETHROW / IGNORE / RETRY / RETRY_NEXT_HOST)"""
+    from vlib.run import Inconclusive
+    from sim.env import SimEnv
+    from sim import world as W
+    from sim.scen import uid_query, uid_of
+    from cassandra.cluster import ExecutionProfile, EXEC_PROFILE_DEFAULT
+    from cassandra.policies import RoundRobinPolicy, RetryPolicy
+    from cassandra.query import SimpleStatement, tuple_factory, dict_factory, named_tuple_factory
+    factories = [('tuple', tuple_factory), ('dict', dict_factory), ('named', named_tuple_factory)]
+    makers = {'tuple': lambda r, k: (r, 'p%d' % k), 'named': lambda r, k: (r, 'p%d' % k), 'dict': lambda r, k: {'id': r, 'tag': 'p%d' % k}}
+    rng = ctx.rng
+    total = ctx.scale(160, 40000)
+    done = 0
+    uid = 500000
+    while done < total:
+        if ctx.time_left(budget) < 0 and done >= 60:
+            ctx.note("fault family stopped by time budget after %d cases" % done)
+            break
+        hseed = rng.randrange(1 << 30)
+        random.seed(hseed)
+        ch = W.RandomChooser(random.Random(hseed), p_time=0.0, p_preempt=rng.choice([0.0, 0.1, 0.3]))
+        env = SimEnv(ch, addresses=['127.0.0.1', '127.0.0.2'], max_steps=10 ** 8)
+        server = FaultyPageServer()
+        for n in env.net.nodes.values():
+            n.behaviour = server.behaviour
+        srng = random.Random(hseed ^ 0x33cc)
+
+        class Scripted(RetryPolicy):
+            """the decision for the error just served was queued by the node script"""
+            def _decide(self, query):
+                sp = server.specs.get(uid_of(getattr(query, 'query_string', '') or ''))
+                d = sp['decisions'].pop(0) if sp and sp['decisions'] else 'rethrow'
+                sp and sp['decided'].append(d)
+                return {'rethrow': (self.RETHROW, None), 'ignore': (self.IGNORE, None), 'retry': (self.RETRY, None),
+                        'next_host': (self.RETRY_NEXT_HOST, None)}[d]
+
+            def on_read_timeout(self, query, *a, **kw):
+                return self._decide(query)
+
+            def on_write_timeout(self, query, *a, **kw):
+                return self._decide(query)
+
+            def on_unavailable(self, query, *a, **kw):
+                return self._decide(query)
+
+            def on_request_error(self, query, *a, **kw):
+                return self._decide(query)
+        try:
+            with env:
+                pol = Scripted()
+                profiles = {EXEC_PROFILE_DEFAULT: ExecutionProfile(load_balancing_policy=RoundRobinPolicy(), request_timeout=None, retry_policy=pol)}
+                for name, f in factories:
+                    profiles[name] = ExecutionProfile(load_balancing_policy=RoundRobinPolicy(), row_factory=f, request_timeout=None, retry_policy=pol)
+                cluster = env.cluster(protocol_version=rng.choice([3, 4]), execution_profiles=profiles)
+                session = cluster.connect()
+                env.world.settle(advance=False)
+                for _ in range(min(80, total - done)):
+                    uid += 1
+                    L = srng.randint(2, 5)
+                    seq = tuple(srng.randint(0, 3) for _ in range(L))
+                    nxt = [(uid % 100000) * 100]
+                    pages = []
+                    for n in seq:
+                        pages.append(list(range(nxt[0], nxt[0] + n)))
+                        nxt[0] += n
+                    states = []
+                    while len(states) < L:
+                        st_ = bytes(srng.randrange(256) for _ in range(srng.randint(1, 12)))
+                        if st_ not in states:
+                            states.append(st_)
+                    resume = srng.random() < 0.5
+                    pat = srng.choice(FAULT_PATTERNS_RESUME if resume else FAULT_PATTERNS_PLAIN)
+                    menu = ['rethrow', 'ignore', 'retry', 'next_host'] if resume else ['ignore', 'retry', 'next_host']
+                    faults = {}
+                    for k in range(L):
+                        if srng.random() < 0.5:
+                            # the first page can only be retried transparently: a rethrown / ignored error leaves no result set to resume
+                            faults[k] = srng.choice(['retry', 'next_host']) if k == 0 else srng.choice(menu)
+                    if not any(k for k in faults):
+                        faults[srng.randint(1, L - 1)] = srng.choice(menu)
+                    sp = server.add(uid, pages, states)
+                    sp.update({'faults': faults, 'faulted': set(), 'decisions': [], 'decided': [],
+                               'fault_kind': dict((k, srng.choice(FAULT_ERRORS)) for k in faults)})
+                    fname = srng.choice(factories)[0]
+                    fetch = srng.choice([1, 2, 3, 5000])
+                    st = SimpleStatement(uid_query(uid), fetch_size=fetch)
+                    try:
+                        rs = session.execute(st, execution_profile=fname)
+                        seen, caught, prob = access_faulty(pat, rs, sp, makers[fname])
+                    except (W.WorldHang, W.WorldLimit):
+                        raise
+                    except Exception as e:      # noqa
+                        import traceback
+                        seen, caught, prob = [], [], [('access-pattern-raised', '%s: %s | %s' % (type(e).__name__, e, traceback.format_exc()[-300:]))]
+                    with env.world.inspect():
+                        problems = judge_faulty(seen, caught, prob, sp, fetch)
+                    done += 1
+                    ctx.case(repr(('fault', seq, pat, fname, sorted(faults.items()))), nontrivial=True)
+                    ctx.count("fault_cases")
+                    ctx.count("fault_page_requests_checked", len(sp['log']))
+                    for d in sp['decided']:
+                        ctx.count("fault_decisions_" + d)
+                    ctx.count("fault_errors_caught_and_resumed", len(caught))
+                    seenslug = set()
+                    for slug, text in problems:
+                        if slug in seenslug:
+                            continue
+                        seenslug.add(slug)
+                        ctx.violation(slug, "%s [page sizes %r, pattern %s, %s rows, faults %r]" % (text, seq, pat, fname, faults),
+                                      {"page_sizes": list(seq), "pattern": pat, "row_factory": fname, "faults": dict((str(k), v) for k, v in faults.items()),
+                                       "requests": [repr(l) for l in sp['log']][:14], "seen": seen, "caught": [repr(e)[:80] for e in caught]})
+                    if not problems and len(ctx.samples) < 6 and caught:
+                        ctx.sample({"fault_family": True, "page_sizes": list(seq), "pattern": pat, "faults": dict((str(k), v) for k, v in faults.items()),
+                                    "requests": [(None if l[0] is None else l[0].hex(), l[2]) for l in sp['log']], "caught": [type(e).__name__ for e in caught], "seen": seen})
+                    del server.specs[uid]
+                harness = list(env.world.errors) + [('parse', p) for p in env.net.parse_failures]
+                cluster.shutdown()
+                env.world.settle()
+        except W.WorldLimit:
+            ctx.count("batches_over_budget")
+            continue
+        except W.WorldHang as e:
+            raise Inconclusive("world hang in the fault family: %s" % (e,))
+        if harness:
+            raise Inconclusive("harness error in the fault family: %r" % (harness[:2],))
+
+
 def sequences(maxlen):
     for L in range(1, maxlen + 1):
         for seq in itertools.product(range(4), repeat=L):
@@ -333,6 +601,11 @@ def run(ctx):
         pos += batch
     ctx.exhaustive = complete
     ctx.count("work_items_assigned", len(work))
+    ctx.assume("fault family (sampled, not part of the exhaustive claim): resume after a rethrown page-fetch error means asking the SAME iterator for the next row "
+               "again / calling fetch_next_page() again; list(), all(), indexing and == are only combined with IGNORE and transparent retries "
+               "(after an exception they cannot be resumed: list mode refuses once iteration started); the first page is only retried transparently")
+    run_fault_family(ctx, budget + (10 if ctx.quick else 60))
     ctx.floor_distinct = 600 if ctx.quick else 20000
-    ctx.floor_counters = {"statements_executed": 600, "page_requests_checked": 1500, "cases_with_an_empty_page_before_the_last": 150,
+    ctx.floor_counters = {"fault_cases": 200, "fault_decisions_rethrow": 30, "fault_decisions_ignore": 40, "fault_errors_caught_and_resumed": 30,
+                          "statements_executed": 600, "page_requests_checked": 1500, "cases_with_an_empty_page_before_the_last": 150,
                           "cases_with_an_empty_last_page": 100}
